@@ -5,7 +5,7 @@ A program is a list of tokens (joined by blanks, so token k of the text is lexed
 (form, first token, last token, name, expected reading or None when the name is undeclared) for every ambiguous construct."""
 
 FORMS_STMT = ["mul", "call", "mul", "call", "mul2"]     # A * b ;   A ( b ) ;   A * b , * c ;  (several declarators)
-FORMS_EXPR = ["cast-", "cast+", "cast*", "cast&", "sizeof", "alignof", "tail-", "tail+", "nest-", "nest+", "nest*", "nest&"]
+FORMS_EXPR = ["cast-", "cast+", "cast*", "cast&", "cast&&", "sizeof", "alignof", "tail-", "tail+", "nest-", "nest+", "nest*", "nest&"]
 
 
 class P:
@@ -113,7 +113,7 @@ class P:
         cat = self.look(a)
         first = len(self.toks) + 1
         if form.startswith("cast"):
-            op = form[4]
+            op = form[4:]
             b = self.operand()
             if op in "*&" and b == "1":
                 b = self.pick_obj_or_decl()
